@@ -498,7 +498,10 @@ pub fn run_c02(run: &mut Run) -> Stats {
     // multi-range requests answered as multipart: the bytes of each part must be the ones its own
     // Content-Range names (descending, overlapping, suffix-first and duplicate orders)
     for &l in &[1000u64, 1 << 32, u64::MAX] {
-        for set in ["40-49,5-9", "-6,0-9", "300-301,100-109,200-200", "5-9,5-9", "0-9,5-14,2-3", "7-,0-0"] {
+        for set in ["40-49,5-9", "-6,0-9", "300-301,100-109,200-200", "5-9,5-9", "0-9,5-14,2-3", "7-,0-0", "0-299,400-400", "600-999,0-299", "100000-169999,5-304"] {
+            if set.starts_with("100000") && l == 1000 {
+                continue;
+            }
             let set = if set == "7-" || set.starts_with("7-,") { format!("{}-,0-0", l - 7) } else { set.to_string() };
             outer.push((l, Some(format!("bytes={set}"))));
         }
@@ -668,9 +671,22 @@ pub fn run_c03(run: &mut Run) -> Stats {
         headers.push((l, "bytes=-340282366920938463463374607431768211456".into()));
         headers.push((l, "bytes=0-99999999999999999999999999999999999999999".into()));
     }
+    // (f) very long values: a thousand specs, positions padded with thousands of zeros
+    for l in [100_000u64, 1 << 33] {
+        for n in [600usize, 1000, 3000] {
+            headers.push((l, format!("bytes={}", (0..n as u64).map(|k| format!("{}-{}", 20 * k, 20 * k)).collect::<Vec<_>>().join(","))));
+            headers.push((l, format!("bytes={}", (0..n as u64).map(|k| format!("{}-{}", 20 * k, 20 * k)).collect::<Vec<_>>().join(", "))));
+        }
+        for z in [2000usize, 9000, 20_000] {
+            let zz = "0".repeat(z);
+            headers.push((l, format!("bytes={zz}1-{zz}2")));
+            headers.push((l, format!("bytes=-{zz}3")));
+            headers.push((l, format!("bytes={zz}5-,0-0")));
+        }
+    }
     headers.sort_by_key(|(l, h)| (h.len(), *l, h.clone()));
     headers.dedup();
-    run.rule = "GET with only a Range header: (a) every 1- and 2-spec set over positions 0..=L+2 for L in {1,2,3,10}; (b) 1..n-spec sets over {0,1,L-1,L,L+1,2^32,2^63,2^64-2,2^64-1,2^64} for large L; (c) 2- and 3-range sets whose sizes put sum(len+80) on L/2-1,L/2,L/2+1,L-1,L and sum(len) on L-1,L,L+1; (d) other units and out-of-grammar values; separators ',' ', ' ',\\t '; multi-spec values against entities with each of the entity header sets (none .. 200-byte values, repeated names). Oracle: u128 reference resolver -> set of admissible (status, ranges); single chunk per get_range. non-trivial = distinct (L, Range value)".into();
+    run.rule = "GET with only a Range header: (a) every 1- and 2-spec set over positions 0..=L+2 for L in {1,2,3,10}; (b) 1..n-spec sets over {0,1,L-1,L,L+1,2^32,2^63,2^64-2,2^64-1,2^64} for large L; (c) 2- and 3-range sets whose sizes put sum(len+80) on L/2-1,L/2,L/2+1,L-1,L and sum(len) on L-1,L,L+1; (d) other units and out-of-grammar values; (f) values of 8 KiB .. 40 KiB (600..3000 specs, positions padded with up to 20 000 zeros); separators ',' ', ' ',\\t '; multi-spec values against entities with each of the entity header sets (none .. 200-byte values, repeated names). Oracle: u128 reference resolver -> set of admissible (status, ranges); single chunk per get_range. non-trivial = distinct (L, Range value)".into();
     run.bounds = json!({"headers": headers.len(), "max_specs": n_max});
     let ev = Eval { prop: &run.prop.clone(), extra_polls: 1 };
     run.extra.insert("range_values".into(), json!(headers.len()));
@@ -845,6 +861,10 @@ pub fn run_c04(run: &mut Run) -> Stats {
                 lists.push(join(&join(other, &opaque, sep), other, sep));
             }
         }
+        for sep in [&b","[..], b", "] {
+            lists.push(join(b"\"zz\"", b"\"yy\"", sep));
+            lists.push(join(&join(b"\"x\"", b"\"y\"", sep), b"W/\"z\"", sep));
+        }
         lists.sort();
         lists.dedup();
         let mut order = (1u64 << 59) | (i << 20);
@@ -984,7 +1004,7 @@ pub fn run_c05(run: &mut Run) -> Stats {
             }
         }
     }
-    run.rule = "entity etag {absent, strong, weak} x mtime {absent, whole, sub-second} x If-Range {absent, same strong, same opaque weak, different, case/prefix/suffix/unterminated variants, dates LM-1/LM/LM+1 in three formats, every byte string of length <= n over {\" W / v 1 SP 0xff}} x Range {one satisfiable, two (multipart zone), two (200 zone), unsatisfiable, absent} x GET/HEAD x L in {10,400}; oracle: 206/416 only if If-Range is absent or byte-identical to a strong entity etag (exact-date match admitted either way), and then exactly what C03 prescribes. non-trivial = distinct (entity validators, If-Range, Range, method, L) with an If-Range header".into();
+    run.rule = "entity etag {absent, strong, weak} x mtime {absent, whole, sub-second} x If-Range {absent, same strong, same opaque weak, different, case/prefix/suffix/unterminated variants, dates LM-1/LM/LM+1 in three formats, every byte string of length <= n over {\" W / v 1 SP 0xff}} x Range {one satisfiable, two (multipart zone), two (200 zone), unsatisfiable, absent} x GET/HEAD x L in {10,400}; the short and tag-like If-Range values also next to a passing If-Match ('*', the entity's tag) and a non-matching If-None-Match; oracle: 206/416 only if If-Range is absent or byte-identical to a strong entity etag (exact-date match admitted either way), and then exactly what C03 prescribes. non-trivial = distinct (entity validators, If-Range, Range, method, L) with an If-Range header".into();
     run.bounds = json!({"if_range_values": if_ranges.len(), "max_arbitrary_len": maxlen});
     let ev = Eval { prop: &run.prop.clone(), extra_polls: 1 };
     par_for(outer.len() as u64, threads(), |i, st| {
@@ -1005,6 +1025,20 @@ pub fn run_c05(run: &mut Run) -> Stats {
                     None => base.clone(),
                     Some(v) => base.clone().with("if-range", v),
                 };
+                // the gate must not depend on what other conditional headers say: the values that
+                // matter most are repeated next to a passing If-Match and a non-matching If-None-Match
+                if let Some(v) = ir {
+                    if v.len() <= 8 || e.as_ref().map(|t| t == v).unwrap_or(false) || v.starts_with(b"\"") || v.starts_with(b"W/") {
+                        for (hn, hv) in [("if-match", &b"*"[..]), ("if-match", e.as_deref().unwrap_or(b"*")), ("if-none-match", &b"\"zz\""[..])] {
+                            let r2 = req.clone().with(hn, hv);
+                            order += 1;
+                            if ev.run(&r2, &entity, st, order).is_some() {
+                                st.nontrivial(&(&r2, ent_key(&entity)));
+                                st.count("gate_next_to_other_conditionals", 1);
+                            }
+                        }
+                    }
+                }
                 order += 1;
                 if let Some((obs, m)) = ev.run(&req, &entity, st, order) {
                     if ir.is_some() {
@@ -1304,6 +1338,15 @@ pub fn run_c13(run: &mut Run) -> Stats {
         specials.push((0, format!("bytes={}", (0..n).map(|k| format!("{k}-")).collect::<Vec<_>>().join(", ")).into_bytes()));
         specials.push((0, format!("bytes={}", vec!["-1"; n as usize].join(",")).into_bytes()));
     }
+    // positions just below and at powers of ten (decimal width changes) in two-part requests
+    for k in [3u32, 9, 15, 16, 17, 18, 19] {
+        let p = 10u64.pow(k);
+        for d in [1u64, 2] {
+            specials.push((0, format!("bytes=0-0,{}-{}", p - d, p - d).into_bytes()));
+            specials.push((0, format!("bytes={}-{},5-5", p - d - 1, p - d).into_bytes()));
+            specials.push((0, format!("bytes=0-{},7-7", p - d).into_bytes()));
+        }
+    }
     for g in ["bytes=0-1 ,2-3", "bytes= 0-1", "bytes=,0-1", "bytes=0-1,", "Bytes=0-1", "bytes=0-1,,2-3", "bytes=\u{7f}"] {
         if http::HeaderValue::from_bytes(g.as_bytes()).is_ok() {
             specials.push((0, g.as_bytes().to_vec()));
@@ -1454,7 +1497,7 @@ pub fn run_c14(run: &mut Run) -> Stats {
             }
         }
     }
-    run.rule = "all two-request histories: request 1 in {GET, GET+satisfiable Range, GET+If-None-Match miss, unsatisfiable Range (416), failing If-Match (412), If-None-Match hit (304), multi-range}; request 2 = GET/HEAD echoing every subset of {If-None-Match: <served ETag>, If-Modified-Since: <served Last-Modified>, If-Match: <served ETag>, If-Unmodified-Since: <served Last-Modified>, If-Range: <served ETag> + Range} (32 subsets), built from the bytes actually served; x etag {absent, strong, weak; tags containing comma, semicolon, '*', 'W/', backslash, obs-text, the empty tag, a 300-byte tag} x mtime {absent, epoch, whole second, +1ms, +1ns, +999999999ns, now+1day} x entity header sets {none, 1, 2, 3, Latin-1 values, repeated field names}. Oracle step 1: Accept-Ranges, ETag byte-equal, Date/Last-Modified parseable with LM <= Date and LM == floor(mtime) for past mtimes, entity headers present on 200/206-without-If-Range and absent on 304/412/416. Step 2: outcome derived from the echoed subset alone. Supplement (time sampling, not exhaustive): three requests every 2 ms for 2.3 s on one thread (entities modified tomorrow / just now / long ago), single-response oracle. non-trivial = distinct (entity, first request, echoed subset, method)".into();
+    run.rule = "all two-request histories: request 1 in {GET, GET+satisfiable Range, GET+If-None-Match miss, unsatisfiable Range (416), failing If-Match (412), If-None-Match hit (304), multi-range}; request 2 = GET/HEAD echoing every subset of {If-None-Match: <served ETag>, If-Modified-Since: <served Last-Modified>, If-Match: <served ETag>, If-Unmodified-Since: <served Last-Modified>, If-Range: <served ETag> + Range} (32 subsets), built from the bytes actually served; x etag {absent, strong, weak; tags containing comma, semicolon, '*', 'W/', backslash, obs-text, the empty tag, a 300-byte tag} x mtime {absent, epoch, whole second, +1ms, +1ns, +999999999ns, now+1day} x entity header sets {none, 1, 2, 3, Latin-1 values, repeated field names}. Oracle step 1: Accept-Ranges, ETag byte-equal, Date/Last-Modified parseable with LM <= Date and LM == floor(mtime) for past mtimes, entity headers present on 200/206-without-If-Range and absent on 304/412/416. Step 2: outcome derived from the echoed subset alone. Supplement (time sampling, not exhaustive): four requests every 2 ms for 2.9 s on one thread (entities modified tomorrow / at the instant of the request / 1.2 s after the start of the loop / long ago), single-response oracle, and an immediate echo of the served Last-Modified for the second and fourth. non-trivial = distinct (entity, first request, echoed subset, method)".into();
     run.bounds = json!({"etag": etags.len(), "mtime": 7, "header_sets": hsets.len(), "first_requests": firsts.len(), "echo_subsets": 32});
     run.assumptions.push("SystemTime::now() is not controlled: past mtimes are decades old, the future one is a day ahead, so no verdict depends on when the two calls happen".into());
     let ev = Eval { prop: &run.prop.clone(), extra_polls: 1 };
@@ -1569,20 +1612,60 @@ pub fn run_c14(run: &mut Run) -> Stats {
         on_fresh_thread(move || {
             let t0 = std::time::Instant::now();
             let mut k = 0u64;
-            while t0.elapsed() < std::time::Duration::from_millis(2300) {
-                for which in 0..3 {
+            // a modification time 1.2 s after the start of the loop: in the future at first, in
+            // the past (by more than a second) at the end
+            let soon = std::time::SystemTime::now() + std::time::Duration::from_millis(1200);
+            while t0.elapsed() < std::time::Duration::from_millis(2900) {
+                for which in 0..4 {
                     let mt = match which {
                         0 => gen::future(),
                         1 => std::time::SystemTime::now(),
+                        2 => soon,
                         _ => gen::t(gen::LM, 250_000_000),
                     };
                     let e = ent(1000, Some(b"\"v1\""), Some(mt), vec![], vec![]);
                     k += 1;
-                    if evr.run(&Req::new("GET"), &e, st, (1 << 62) + k).is_some() {
+                    if let Some((o1, _)) = evr.run(&Req::new("GET"), &e, st, (1 << 62) + k) {
                         st.count("time_sampled_requests", 1);
+                        // echo of the served Last-Modified, at once (same clock second most of the
+                        // time): for an entity that is not modified in the future this must be 304
+                        if which == 1 || which == 3 {
+                            if let Some(lm) = o1.hdr("last-modified") {
+                                let r2 = Req::new("GET").with("if-modified-since", lm);
+                                k += 1;
+                                if let Some(o2) = run_serve(&r2, &e, 1, HORIZON) {
+                                    st.evaluations += 1;
+                                    st.count("time_sampled_echoes", 1);
+                                    if o2.status != 304 {
+                                        let mut fs = vec![Finding { props: vec!["C14"], key: "echo-not-304:recent-mtime".into(), msg: format!("entity modified {} ; echoing the served Last-Modified {:?} in If-Modified-Since at once gave {} instead of 304", if which == 1 { "at the instant of the first request" } else { "in 1994" }, String::from_utf8_lossy(lm), o2.status) }];
+                                        check_validators(&r2, &e, &o2, &mut fs);
+                                        evr.report(&r2, &e, &o2, fs, st, (1 << 62) + k);
+                                    }
+                                }
+                            }
+                        }
                     }
                 }
                 std::thread::sleep(std::time::Duration::from_millis(2));
+            }
+        });
+    }
+    // ... and ONE entity only, modified 1.2 s after the start, every 5 ms for 2.9 s (a cache keyed by
+    // the entity's own modification time is never evicted by another entity here)
+    {
+        let st = &mut ts;
+        let evr = &ev;
+        on_fresh_thread(move || {
+            let t0 = std::time::Instant::now();
+            let soon = std::time::SystemTime::now() + std::time::Duration::from_millis(1200);
+            let e = ent(1000, Some(b"\"v1\""), Some(soon), vec![], vec![]);
+            let mut k = 0u64;
+            while t0.elapsed() < std::time::Duration::from_millis(2900) {
+                k += 1;
+                if evr.run(&Req::new("GET"), &e, st, (1 << 62) + (1 << 40) + k).is_some() {
+                    st.count("time_sampled_requests_one_entity", 1);
+                }
+                std::thread::sleep(std::time::Duration::from_millis(5));
             }
         });
     }
@@ -1721,6 +1804,50 @@ pub fn run_pairs(prop: &str) -> Stats {
 }
 
 // -------------------------------------------------------------------------------------------
+// Bodies polled inside a tokio task
+
+/// The hand-rolled poll loop of the other families never runs inside an async runtime. Here a few
+/// bodies whose entity delivers HUNDREDS of always-ready frames (more than tokio's cooperative
+/// budget of 128 per task poll) are drained inside a tokio task, where code that consults the
+/// runtime behaves differently. Judged by the ordinary oracle.
+pub fn run_in_tokio(prop: &str) -> Stats {
+    let mut cases: Vec<(Req, EntSpec)> = Vec::new();
+    let ones = |n: u64| Script::of(vec![crate::ent::Ev::Data(1); n as usize]);
+    let hs = gen::header_sets();
+    for n in [100u64, 129, 300, 1000] {
+        cases.push((Req::new("GET"), ent(n, Some(b"\"v1\""), None, hs[1].clone(), vec![ones(n)])));
+        cases.push((Req::new("GET").with("range", format!("bytes=10-{}", 10 + n - 1).as_bytes()), ent(5000, Some(b"\"v1\""), None, hs[1].clone(), vec![ones(n)])));
+        cases.push((Req::new("GET").with("range", format!("bytes=0-{},50000-{}", n - 1, 50_000 + n - 1).as_bytes()), ent(1_000_000, Some(b"\"v1\""), None, hs[1].clone(), vec![ones(n), ones(n)])));
+        // one part in a single chunk, the other in many
+        cases.push((Req::new("GET").with("range", format!("bytes=7-9,50000-{}", 50_000 + n - 1).as_bytes()), ent(1_000_000, Some(b"\"v1\""), None, hs[0].clone(), vec![Script::whole(3), ones(n)])));
+    }
+    let mut st = Stats::new();
+    for (i, (req, e)) in cases.iter().enumerate() {
+        let Some(obs) = osv::run_serve_with(req, e, 2, 10 * HORIZON, true) else { continue };
+        st.evaluations += 1;
+        let m = model(req, e);
+        let mut fs: Vec<Finding> = Vec::new();
+        check(req, e, &obs, &m, &mut fs);
+        let s0 = st.state(&("tokio", obs.status, e.scripts.len()));
+        let s1 = st.state(&("tokio-end", obs.body.first_terminal().map(|t| obs.body.steps[t].1.kind()), obs.body.steps.len().min(2000)));
+        st.transition(s0, 0, s1);
+        st.nontrivial(&("tokio", i));
+        st.count("bodies_drained_inside_a_tokio_task", 1);
+        st.outcome(format!("tokio/{}", obs.status));
+        for f in fs {
+            if f.props.contains(&prop) {
+                st.violation((1 << 63) + i as u64, format!("{}:inside-a-tokio-task", f.key), format!("{} (body drained inside a tokio task; {} frames)", f.msg, obs.body.steps.len()), || {
+                    let mut c = case_json(req, e, 2);
+                    c["in_tokio_task"] = json!(true);
+                    c
+                });
+            }
+        }
+    }
+    st
+}
+
+// -------------------------------------------------------------------------------------------
 // The "zoo": every kind of entity against every kind of request
 
 /// Each check above takes the product of the dimensions ITS property quantifies over and keeps
@@ -1822,11 +1949,13 @@ pub fn replay(case: &serde_json::Value, prop: &str) -> i32 {
     if !history.is_empty() {
         println!("replaying after {} earlier request(s) on the same (fresh) thread", history.len());
     }
-    let Some(o1) = run_after(&history, &req, &e, extra) else {
+    let in_tokio = case["in_tokio_task"].as_bool().unwrap_or(false);
+    let run1 = || if in_tokio { osv::run_serve_with(&req, &e, extra, 10 * HORIZON, true) } else { run_after(&history, &req, &e, extra) };
+    let Some(o1) = run1() else {
         eprintln!("request not constructible");
         return 2;
     };
-    let o2 = run_after(&history, &req, &e, extra).unwrap();
+    let o2 = run1().unwrap();
     if o1.stable_repr() != o2.stable_repr() {
         eprintln!("MACHINERY ERROR: two replays of the same case differ");
         return 2;
